@@ -14,8 +14,42 @@ import (
 // T0 is the instant at which checks freeze the clock.
 var T0 = time.Date(2030, 1, 15, 12, 0, 0, 0, time.UTC)
 
-func SetNow(t time.Time) { time.VerifSetNow(t.UnixNano()) }
-func ClearNow()          { time.VerifClearNow() }
+var (
+	virtualMu  sync.Mutex
+	virtualSet bool
+	virtualAt  time.Time
+)
+
+func SetNow(t time.Time) {
+	virtualMu.Lock()
+	virtualSet, virtualAt = true, t
+	virtualMu.Unlock()
+	time.VerifSetNow(t.UnixNano())
+}
+
+func ClearNow() {
+	virtualMu.Lock()
+	virtualSet = false
+	virtualMu.Unlock()
+	time.VerifClearNow()
+}
+
+// WithRealClock runs f with the real clock and restores the virtual instant that was set before (if any).
+func WithRealClock(f func()) {
+	virtualMu.Lock()
+	was, at := virtualSet, virtualAt
+	virtualMu.Unlock()
+
+	ClearNow()
+
+	defer func() {
+		if was {
+			SetNow(at)
+		}
+	}()
+
+	f()
+}
 
 //go:linkname mapIterBegin runtime.verifMapIterBegin
 func mapIterBegin(script []uint8)
